@@ -223,6 +223,20 @@ CHECKS['C31'] = {
     'explanation': 'A sanitizer abort counts as a violation for this property (replies must fit the allocated buffer).',
 }
 
+
+CHECKS['C40'] = {
+    'harnesses': [{'harness': 'csc_sim', 'binary': 'csc_sim'}],
+    'technique': 'deterministic simulation: seeded client / sensor / link interleavings on the CSC control point against a procedure automaton, bounded progress after faults stop',
+    'design_ref': 'DESIGN.md 4.3, 6 (C40)',
+    'level_text': 'Seeded search over sequences of control point writes (every opcode, lengths 0..8), subscription changes, late polls, confirmations, sensor confirmations that come any number of steps later, reads of the '
+                  'control point, measurement notifications and disconnect/reconnect, on three CSC server configurations. Model: a procedure is in progress from an accepted write until its response indication is produced. '
+                  'Oracles: Procedure Already In Progress only while the model is in progress, no second procedure accepted meanwhile, every response indication names the opcode of the accepted procedure and comes once, '
+                  'Set Cumulative Value is answered only after the sensor confirmed; after the faults stop every accepted procedure gets its response within 4 polls and a further valid procedure is accepted and answered. Sampling, not proof.',
+    'level_note': 'trusted: the automaton in harness/csc_sim.cpp; the link layer is a stub; a response that cannot be delivered any more because of a disconnect or an unsubscription is outside the property and only counted',
+    'assumptions': ['one connection at a time', 'the sensor confirms a new cumulative value only when it was asked to set one'],
+    'explanation': 'Known finding: the control point can be read although it is declared no_read_access (C06), which ends a procedure early.',
+}
+
 # properties that are deliberately not decided by simulation (see DESIGN.md section 7)
 NOT_APPLICABLE = {
     'C04': 'compile-time mapping of the declaration to handles: no schedule, clock, fault or history can influence it (DESIGN.md 7); mapping errors still surface under C02/C03, whose model has an independent handle table',
